@@ -699,8 +699,10 @@ def get_tilde_constraints(constraint):
         raise ValueError(f"Invalid tilde GemConstraint: {constraint!r}")
     version = constraint.version
     assert isinstance(version, GemVersion)
-    lower_bound = version.release()
-    upper_bound = lower_bound.bump()
+    # As in Rubygems ("v >= r && v.release < r.bump"), the lower bound is the
+    # version itself, including its prerelease part if any: "~> 1.0.a" accepts 1.0.a
+    lower_bound = version
+    upper_bound = version.bump()
 
     return (
         GemConstraint(op=">=", version=lower_bound),
